@@ -31,10 +31,17 @@ def resolve_place(f: Func, p, depth=0, seen=frozenset()):
         for i, e in enumerate(proj):
             if e.startswith(".^"):
                 rest = proj[i + 1:]
-                node = ("upvar", e[2:])
+                node = ("upvar", upvar_name(e[2:]))
                 return ("place", node, tuple(rest)) if rest else node
     # fold projections through aggregates / refs where possible
     return project(base, tuple(proj))
+
+
+def upvar_name(raw: str) -> str:
+    """rustc names captured places `_ref__self__content` (by-ref capture of self.content)."""
+    if raw.startswith("_ref__"):
+        raw = raw[6:]
+    return raw.replace("__", ".")
 
 
 def project(base, proj):
